@@ -147,6 +147,8 @@ class Flow:
         if name in self.MUTATORS and isinstance(recv, ast.Name) and isinstance(self.env.get(recv.id), RF):
             self._mutated = getattr(self, '_mutated', set()) | {recv.id}
         frf = self.env.get(node.func.id) if isinstance(node.func, ast.Name) else None
+        if isinstance(node.func, ast.Subscript):
+            frf = self.expr(node.func)          # a callable picked out of a sequence: item[3](value)
         self.ev('call', node, name=name, recv=recv, args=args, kw=dict(kw),
                 fn=dotted(node.func), recv_rf=recv_rf, func_rf=frf if isinstance(frf, RF) else None)
         return self._inline(node, name, recv, args, kw)
